@@ -235,14 +235,16 @@ def hardcoded_password_default(context):
     """
     # looks for "def function(candidate='some_string')"
 
+    # defaults belong to the last positional parameters, positional-only
+    # ones included
+    args = context.node.args.posonlyargs + context.node.args.args
+
     # this pads the list of default values with "None" if nothing is given
-    defs = [None] * (
-        len(context.node.args.args) - len(context.node.args.defaults)
-    )
+    defs = [None] * (len(args) - len(context.node.args.defaults))
     defs.extend(context.node.args.defaults)
 
     # go through all (param, value)s and look for candidates
-    for key, val in zip(context.node.args.args, defs):
+    for key, val in zip(args, defs):
         if isinstance(key, (ast.Name, ast.arg)):
             # Skip if the default value is None
             if val is None or (
